@@ -2,8 +2,8 @@
   Property C07 — sparse products (model: Ohsl/Model/Sparse.lean).
   Proved here, class (S): `multiply` / `transpose_multiply` reject vectors whose length differs from
   the number of columns / rows.  The identification with the dense product, the adjoint identity and
-  linearity are carried by the exact (rational) correspondence + dense-reference oracle; see
-  obligations.json `not_proved`.
+  linearity are proved in C07S; the explicit transpose and the entry / dense forms of the transposed
+  product in C07T; rounding in C07F.
 -/
 import Ohsl.Model.Sparse
 set_option linter.unusedSectionVars false
